@@ -1,7 +1,7 @@
 (* Facts about the model of to_hashable (C15). *)
 From Coq Require Import Permutation Sorted.
 From Verif Require Import Base.Prelude Base.PySort Model.PyVal Model.ToHashable Model.ToHashableSpec.
-From Verif Require Import Proofs.PySortFacts Proofs.PyValFacts.
+From Verif Require Import Proofs.PySortFacts Proofs.PyValFacts Proofs.CKeyFacts.
 
 (* ---------- unfolding equations ---------- *)
 Lemma th_atom_eq : forall fp a, to_hashable fp (PA a) = th_atom fp a.
@@ -328,85 +328,59 @@ Ltac bsplit :=
          | H : _ && _ = true |- _ => apply andb_true_iff in H; destruct H
          end.
 
-Lemma sort_class_vclass : forall v, sort_class v = vclass v.
-Proof. destruct v as [a| | | | |]; try reflexivity; destruct a; reflexivity. Qed.
+(* hashable and well-formed: what a set element / a mapping key is *)
+Definition hw (x : pyval) : Prop := wf x = true /\ py_hashable x = true.
 
-Lemma in_class_vclass : forall c v, in_class c v = true -> vclass v = Some c.
+Lemma nodup_ckeys : forall l, (forall x, In x l -> hw x) -> nodup_by (rel false) l = true -> NoDup (map ckey l).
 Proof.
-  intros c v H. unfold in_class in H. rewrite sort_class_vclass in H.
-  destruct (vclass v) as [c'|]; [|discriminate]. apply Nat.eqb_eq in H. subst. reflexivity.
+  intros l Hl Hnd. apply (nodup_by_NoDup_map (rel false)); auto.
+  intros x y Hx Hy E. destruct (Hl x Hx), (Hl y Hy). apply ckey_rel_iff; auto.
 Qed.
 
-Lemma homog_class : forall l, homog l = true -> exists c, Forall (fun x => vclass x = Some c) l.
+Lemma ck_decide : forall a b, a <> b -> (ck_ltb a b = true /\ cklt a b) \/ (ck_ltb a b = false /\ cklt b a).
 Proof.
-  intros l H. unfold homog in H. apply orb_true_iff in H. destruct H as [H|H]; [apply orb_true_iff in H; destruct H as [H|H]|].
-  - exists 0. apply Forall_forall. intros x Hx. rewrite forallb_forall in H. apply in_class_vclass; auto.
-  - exists 1. apply Forall_forall. intros x Hx. rewrite forallb_forall in H. apply in_class_vclass; auto.
-  - exists 2. apply Forall_forall. intros x Hx. rewrite forallb_forall in H. apply in_class_vclass; auto.
-Qed.
-
-Lemma nodup_keys : forall c l, Forall (fun x => vclass x = Some c) l -> nodup_by (rel false) l = true ->
-  NoDup (map skey l).
-Proof.
-  induction l as [|x t IH]; intros HF Hnd; simpl; [constructor|].
-  inversion HF as [|? ? Hx Ht]; subst. simpl in Hnd. bsplit.
-  constructor; auto. intro Hin. apply in_map_iff in Hin. destruct Hin as (y & Hy & Hyin).
-  rewrite Forall_forall in Ht.
-  assert (Hrel : rel false x y = true) by (eapply class_eq_key; eauto).
-  match goal with H : negb (existsb _ t) = true |- _ => apply negb_true_iff in H; rename H into Hex end.
-  assert (existsb (rel false x) t = true) by (apply existsb_exists; eauto). congruence.
-Qed.
-
-Lemma lex_decide : forall a b, a <> b -> (lex_ltb a b = true /\ lexlt a b) \/ (lex_ltb a b = false /\ lexlt b a).
-Proof.
-  intros a b Hne. destruct (lex_ltb a b) eqn:E; [left; auto|]. right. split; auto.
-  destruct (lex_total a b) as [H|[H|H]]; auto; [unfold lexlt in H; congruence|contradiction].
+  intros a b Hne. destruct (ck_ltb a b) eqn:E; [left; auto|]. right. split; auto.
+  destruct (ck_total a b) as [H|[H|H]]; auto; [unfold cklt in H; congruence|contradiction].
 Qed.
 
 (* elements *)
-Definition ekey (e : elem) : list Z := skey (fst e).
-Lemma elem_lt_spec : forall c (x y : elem),
-  vclass (fst x) = Some c -> vclass (fst y) = Some c -> ekey x <> ekey y ->
-  (elem_lt x y = Ok true /\ lexlt (ekey x) (ekey y)) \/ (elem_lt x y = Ok false /\ lexlt (ekey y) (ekey x)).
+Definition ekey (e : elem) : ck := ckey (fst e).
+Lemma elem_lt_spec : forall (x y : elem), ekey x <> ekey y ->
+  (elem_lt x y = Ok true /\ cklt (ekey x) (ekey y)) \/ (elem_lt x y = Ok false /\ cklt (ekey y) (ekey x)).
 Proof.
-  intros c x y Hx Hy Hne. unfold elem_lt, ekey in *. rewrite (class_lt_key _ _ c Hx Hy).
-  destruct (lex_decide _ _ Hne) as [[E H]|[E H]]; rewrite E; auto.
+  intros x y Hne. unfold elem_lt, key_lt, ekey in *.
+  destruct (ck_decide _ _ Hne) as [[E H]|[E H]]; rewrite E; auto.
 Qed.
 
 (* items *)
-Definition ikey (it : item) : list Z := skey (fst (fst it)).
-Lemma item_lt_spec : forall c (x y : item),
-  vclass (fst (fst x)) = Some c -> vclass (fst (fst y)) = Some c -> ikey x <> ikey y ->
-  (item_lt x y = Ok true /\ lexlt (ikey x) (ikey y)) \/ (item_lt x y = Ok false /\ lexlt (ikey y) (ikey x)).
+Definition ikey (it : item) : ck := ckey (fst (fst it)).
+Lemma item_lt_spec : forall (x y : item), ikey x <> ikey y ->
+  (item_lt x y = Ok true /\ cklt (ikey x) (ikey y)) \/ (item_lt x y = Ok false /\ cklt (ikey y) (ikey x)).
 Proof.
-  intros c x y Hx Hy Hne. unfold item_lt, pair_t, ikey in *.
-  assert (Hrel : rel false (fst (fst x)) (fst (fst y)) = false).
-  { destruct (rel false (fst (fst x)) (fst (fst y))) eqn:E; auto. exfalso. apply Hne.
-    eapply class_eq_key; eauto. }
-  rewrite pair_lt_keys by exact Hrel. rewrite (class_lt_key _ _ c Hx Hy).
-  destruct (lex_decide _ _ Hne) as [[E H]|[E H]]; rewrite E; auto.
+  intros x y Hne. unfold item_lt, key_lt, ikey in *.
+  destruct (ck_decide _ _ Hne) as [[E H]|[E H]]; rewrite E; auto.
 Qed.
 
-Definition esorted := StronglySorted (fun x y : elem => lexlt (ekey x) (ekey y)).
-Definition isorted := StronglySorted (fun x y : item => lexlt (ikey x) (ikey y)).
+Definition esorted := StronglySorted (fun x y : elem => cklt (ekey x) (ekey y)).
+Definition isorted := StronglySorted (fun x y : item => cklt (ikey x) (ikey y)).
 
-Lemma sort_elems : forall c (elems : list elem),
-  Forall (fun e => vclass (fst e) = Some c) elems -> NoDup (map ekey elems) ->
+Lemma sort_elems : forall (elems : list elem), NoDup (map ekey elems) ->
   exists es, py_sort elem_lt elems = Ok es /\ Permutation elems es /\ esorted es.
 Proof.
-  intros c elems HS Hnd.
-  apply (py_sort_spec elem_lt lexlt ekey (fun e => vclass (fst e) = Some c)); auto.
-  - exact lex_trans.
-  - intros; eapply elem_lt_spec; eauto.
+  intros elems Hnd.
+  apply (py_sort_spec elem_lt cklt ekey (fun _ => True)); auto.
+  - exact ck_trans.
+  - intros; apply elem_lt_spec; auto.
+  - apply Forall_forall. auto.
 Qed.
-Lemma sort_items : forall c (items : list item),
-  Forall (fun it => vclass (fst (fst it)) = Some c) items -> NoDup (map ikey items) ->
+Lemma sort_items : forall (items : list item), NoDup (map ikey items) ->
   exists its, py_sort item_lt items = Ok its /\ Permutation items its /\ isorted its.
 Proof.
-  intros c items HS Hnd.
-  apply (py_sort_spec item_lt lexlt ikey (fun it => vclass (fst (fst it)) = Some c)); auto.
-  - exact lex_trans.
-  - intros; eapply item_lt_spec; eauto.
+  intros items Hnd.
+  apply (py_sort_spec item_lt cklt ikey (fun _ => True)); auto.
+  - exact ck_trans.
+  - intros; apply item_lt_spec; auto.
+  - apply Forall_forall. auto.
 Qed.
 
 (* ================= canonicity: equal values of the same type get equal keys ================= *)
@@ -450,142 +424,139 @@ Proof.
 Qed.
 
 Lemma set_canon : forall fp l l' d d',
-  forallb py_hashable l = true -> nodup_by (rel false) l = true ->
-  forallb py_hashable l' = true -> nodup_by (rel false) l' = true ->
-  homog l = true -> homog l' = true -> length l = length l' ->
+  forallb wf l = true -> forallb py_hashable l = true -> nodup_by (rel false) l = true ->
+  forallb wf l' = true -> forallb py_hashable l' = true ->
+  length l = length l' ->
   (forall a, In a l -> exists b, In b l' /\ rel true a b = true) ->
   hashable_iterable true (map (fun x => (x, to_hashable fp x)) l) = Ok d ->
   hashable_iterable true (map (fun x => (x, to_hashable fp x)) l') = Ok d' ->
   rel false d d' = true.
 Proof.
-  intros fp l l' d d' Hh Hnd Hh' Hnd' Hg Hg' Hlen H1 Hd Hd'.
-  destruct (homog_class l Hg) as [c Hc]. destruct (homog_class l' Hg') as [c' Hc'].
+  intros fp l l' d d' Hw Hh Hnd Hw' Hh' Hlen H1 Hd Hd'.
+  rewrite forallb_forall in Hw, Hh, Hw', Hh'.
+  assert (Hhw : forall x, In x l -> hw x) by (intros x Hx; split; auto).
+  assert (Hhw' : forall x, In x l' -> hw x) by (intros x Hx; split; auto).
+  (* rel true = rel false between elements; the keys of l' are a permutation of those of l, hence duplicate free *)
+  assert (H1f : forall a, In a l -> exists b, In b l' /\ rel false a b = true).
+  { intros a Ha. destruct (H1 a Ha) as (b & Hb & Hab). exists b. split; auto.
+    rewrite (hashable_rel_same a (Hw a Ha) (Hh a Ha) b (Hw' b Hb) (Hh' b Hb)). exact Hab. }
+  assert (Hndk : NoDup (map ckey l)) by (apply nodup_ckeys; auto).
+  assert (Hperm : Permutation (map ckey l) (map ckey l')).
+  { apply NoDup_Permutation_bis; auto; [rewrite !map_length; lia|].
+    intros k Hk. apply in_map_iff in Hk. destruct Hk as (x & <- & Hx). destruct (H1f x Hx) as (y & Hy & Hxy).
+    apply in_map_iff. exists y. split; auto. symmetry. apply ckey_rel_iff; auto. }
+  assert (Hndk' : NoDup (map ckey l')) by (eapply Permutation_NoDup; eauto).
   set (elems := map (fun x => (x, to_hashable fp x)) l) in *.
   set (elems' := map (fun x => (x, to_hashable fp x)) l') in *.
-  assert (Hk : map ekey elems = map skey l) by (unfold elems; rewrite map_map; reflexivity).
-  assert (Hk' : map ekey elems' = map skey l') by (unfold elems'; rewrite map_map; reflexivity).
-  assert (HS : Forall (fun e : elem => vclass (fst e) = Some c) elems).
-  { apply Forall_forall. intros e He. apply in_map_iff in He. destruct He as (x & <- & Hx). simpl.
-    rewrite Forall_forall in Hc. auto. }
-  assert (HS' : Forall (fun e : elem => vclass (fst e) = Some c') elems').
-  { apply Forall_forall. intros e He. apply in_map_iff in He. destruct He as (x & <- & Hx). simpl.
-    rewrite Forall_forall in Hc'. auto. }
-  assert (Hndk : NoDup (map skey l)) by (eapply nodup_keys; eauto).
-  assert (Hndk' : NoDup (map skey l')) by (eapply nodup_keys; eauto).
-  destruct (sort_elems c elems HS) as (es0 & Hs0 & Hp & Hso); [rewrite Hk; auto|].
-  destruct (sort_elems c' elems' HS') as (es0' & Hs0' & Hp' & Hso'); [rewrite Hk'; auto|].
+  assert (Hk : map ekey elems = map ckey l) by (unfold elems; rewrite map_map; reflexivity).
+  assert (Hk' : map ekey elems' = map ckey l') by (unfold elems'; rewrite map_map; reflexivity).
+  destruct (sort_elems elems) as (es0 & Hs0 & Hp & Hso); [rewrite Hk; auto|].
+  destruct (sort_elems elems') as (es0' & Hs0' & Hp' & Hso'); [rewrite Hk'; auto|].
   apply iterable_sorted in Hd. destruct Hd as (es & out & Hs & -> & HF).
   apply iterable_sorted in Hd'. destruct Hd' as (es' & out' & Hs' & -> & HF').
   rewrite Hs0 in Hs. inversion Hs; subst es0. rewrite Hs0' in Hs'. inversion Hs'; subst es0'.
-  rewrite forallb_forall in Hh, Hh'.
   rewrite (elems_out fp l es out Hp Hh HF), (elems_out fp l' es' out' Hp' Hh' HF').
   rewrite rel_tuple. apply rel_list_forall2. apply Forall2_map_fst.
-  rewrite Forall_forall in Hc, Hc'.
-  set (R := fun e e' : elem => vclass (fst e) = Some c /\ vclass (fst e') = Some c'
-                               /\ rel false (fst e) (fst e') = true).
+  set (R := fun e e' : elem => hw (fst e) /\ hw (fst e') /\ rel false (fst e) (fst e') = true).
   assert (HR : Forall2 R es es').
-  { apply (sorted_unique lexlt ekey ekey R lex_irrefl lex_trans); auto.
-    - intros a b (Ha & Hb & Hab). unfold ekey. eapply class_eq_key; eauto.
+  { apply (sorted_unique cklt ekey ekey R ck_irrefl ck_trans); auto.
+    - intros a b ((Wa & Ha) & (Wb & Hb) & Hab). unfold ekey. apply ckey_rel_iff; auto.
     - intros a Ha. apply (Permutation_in _ (Permutation_sym Hp)) in Ha. apply in_map_iff in Ha.
-      destruct Ha as (x & <- & Hx). destruct (H1 x Hx) as (y & Hy & Hxy).
+      destruct Ha as (x & <- & Hx). destruct (H1f x Hx) as (y & Hy & Hxy).
       exists (y, to_hashable fp y). split.
       + apply (Permutation_in _ Hp'). apply in_map_iff. eauto.
-      + unfold R. simpl. split; auto. split; auto.
-        eapply class_eq_key; eauto. eapply (class_eq_key true); eauto.
+      + unfold R. simpl. auto.
     - intros b Hb. apply (Permutation_in _ (Permutation_sym Hp')) in Hb. apply in_map_iff in Hb.
       destruct Hb as (y & <- & Hy).
-      assert (Hincl : incl (map skey l) (map skey l')).
-      { intros z Hz. apply in_map_iff in Hz. destruct Hz as (x & <- & Hx). destruct (H1 x Hx) as (y0 & Hy0 & Hxy).
-        apply in_map_iff. exists y0. split; auto. symmetry. eapply (class_eq_key true); eauto. }
-      assert (Hincl' : incl (map skey l') (map skey l)).
-      { apply NoDup_length_incl; auto. rewrite !map_length. lia. }
-      assert (Hin : In (skey y) (map skey l)) by (apply Hincl'; apply in_map; auto).
+      assert (Hin : In (ckey y) (map ckey l)).
+      { apply (Permutation_in _ (Permutation_sym Hperm)). apply in_map. auto. }
       apply in_map_iff in Hin. destruct Hin as (x & Hxy & Hx).
       exists (x, to_hashable fp x). split.
       + apply (Permutation_in _ Hp). apply in_map_iff. eauto.
-      + unfold R. simpl. split; auto. split; auto. eapply class_eq_key; eauto. }
+      + unfold R. simpl. split; auto. split; auto. apply ckey_rel_iff; auto. }
   clear -HR. induction HR as [|e e' es es' (_ & _ & H) _ IH]; constructor; auto.
 Qed.
 
-Definition itemR (c c' : nat) (Rv : pyval -> pyval -> Prop) (it it' : item) : Prop :=
-  vclass (fst (fst it)) = Some c /\ vclass (fst (fst it')) = Some c'
+Definition itemR (Rv : pyval -> pyval -> Prop) (it it' : item) : Prop :=
+  hw (fst (fst it)) /\ hw (fst (fst it'))
   /\ rel false (fst (fst it)) (fst (fst it')) = true /\ Rv (snd (fst it)) (snd (fst it')).
 
-Lemma items_canon : forall fp c c' (Rv : pyval -> pyval -> Prop) kvs kvs' its its',
-  nodup_by (rel false) (map fst kvs) = true -> nodup_by (rel false) (map fst kvs') = true ->
-  Forall (fun x => vclass x = Some c) (map fst kvs) -> Forall (fun x => vclass x = Some c') (map fst kvs') ->
+Definition keys_hw (kvs : list (pyval * pyval)) : Prop := forall kv, In kv kvs -> hw (fst kv).
+
+Lemma keys_perm : forall (kvs kvs' : list (pyval * pyval)) (Rv : pyval -> pyval -> Prop),
+  keys_hw kvs -> keys_hw kvs' -> nodup_by (rel false) (map fst kvs) = true -> length kvs = length kvs' ->
   (forall kv, In kv kvs -> exists kv', In kv' kvs' /\ rel true (fst kv) (fst kv') = true /\ Rv (snd kv) (snd kv')) ->
-  (forall kv', In kv' kvs' -> exists kv, In kv kvs /\ rel true (fst kv) (fst kv') = true /\ Rv (snd kv) (snd kv')) ->
-  py_sort item_lt (mk_items fp kvs) = Ok its -> py_sort item_lt (mk_items fp kvs') = Ok its' ->
-  Forall2 (itemR c c' Rv) its its'.
+  NoDup (map ckey (map fst kvs)) /\ Permutation (map ckey (map fst kvs)) (map ckey (map fst kvs')).
 Proof.
-  intros fp c c' Rv kvs kvs' its its' Hnd Hnd' Hc Hc' H1 H2 Hs Hs'.
-  assert (Hk : map ikey (mk_items fp kvs) = map skey (map fst kvs))
-    by (unfold mk_items; rewrite !map_map; reflexivity).
-  assert (Hk' : map ikey (mk_items fp kvs') = map skey (map fst kvs'))
-    by (unfold mk_items; rewrite !map_map; reflexivity).
-  rewrite Forall_forall in Hc, Hc'.
-  assert (Hcl : forall kv, In kv kvs -> vclass (fst kv) = Some c) by (intros; apply Hc; apply in_map; auto).
-  assert (Hcl' : forall kv, In kv kvs' -> vclass (fst kv) = Some c') by (intros; apply Hc'; apply in_map; auto).
-  assert (HS : Forall (fun it : item => vclass (fst (fst it)) = Some c) (mk_items fp kvs)).
-  { apply Forall_forall. intros it Hit. apply in_mk_items in Hit. destruct Hit as (kv & Hkv & ->). simpl. auto. }
-  assert (HS' : Forall (fun it : item => vclass (fst (fst it)) = Some c') (mk_items fp kvs')).
-  { apply Forall_forall. intros it Hit. apply in_mk_items in Hit. destruct Hit as (kv & Hkv & ->). simpl. auto. }
-  destruct (sort_items c _ HS) as (its0 & Hs0 & Hp & Hso).
-  { rewrite Hk. eapply nodup_keys; eauto. apply Forall_forall. auto. }
-  destruct (sort_items c' _ HS') as (its0' & Hs0' & Hp' & Hso').
-  { rewrite Hk'. eapply nodup_keys; eauto. apply Forall_forall. auto. }
-  rewrite Hs0 in Hs. inversion Hs; subst its0. rewrite Hs0' in Hs'. inversion Hs'; subst its0'.
-  apply (sorted_unique lexlt ikey ikey (itemR c c' Rv) lex_irrefl lex_trans); auto.
-  - intros a b (Ha & Hb & Hab & _). unfold ikey. eapply class_eq_key; eauto.
-  - intros a Ha. apply (Permutation_in _ (Permutation_sym Hp)) in Ha. apply in_mk_items in Ha.
-    destruct Ha as (kv & Hkv & ->). destruct (H1 kv Hkv) as (kv' & Hkv' & Hkk & Hvv).
-    exists (fst kv', snd kv', to_hashable fp (snd kv')). split.
-    + apply (Permutation_in _ Hp'). unfold mk_items. apply in_map_iff. exists kv'. auto.
-    + unfold itemR. simpl. repeat split; auto.
-      eapply class_eq_key; eauto. eapply (class_eq_key true); eauto.
-  - intros b Hb. apply (Permutation_in _ (Permutation_sym Hp')) in Hb. apply in_mk_items in Hb.
-    destruct Hb as (kv' & Hkv' & ->). destruct (H2 kv' Hkv') as (kv & Hkv & Hkk & Hvv).
-    exists (fst kv, snd kv, to_hashable fp (snd kv)). split.
-    + apply (Permutation_in _ Hp). unfold mk_items. apply in_map_iff. exists kv. auto.
-    + unfold itemR. simpl. repeat split; auto.
-      eapply class_eq_key; eauto. eapply (class_eq_key true); eauto.
+  intros kvs kvs' Rv Hk Hk' Hnd Hlen H1.
+  assert (Hndk : NoDup (map ckey (map fst kvs))).
+  { apply nodup_ckeys; auto. intros x Hx. apply in_map_iff in Hx. destruct Hx as (kv & <- & Hin). auto. }
+  split; auto.
+  apply NoDup_Permutation_bis; auto; [rewrite !map_length; lia|].
+  intros k Hin. rewrite map_map in Hin. apply in_map_iff in Hin. destruct Hin as (kv & <- & Hkv).
+  destruct (H1 kv Hkv) as (kv' & Hkv' & Hkk & _). rewrite map_map. apply in_map_iff. exists kv'. split; auto.
+  destruct (Hk kv Hkv) as [W H], (Hk' kv' Hkv') as [W' H'].
+  symmetry. apply ckey_rel_iff; auto. rewrite (hashable_rel_same _ W H _ W' H'). exact Hkk.
 Qed.
 
-Lemma dict_h2 : forall c c' (Rv : pyval -> pyval -> Prop) (kvs kvs' : list (pyval * pyval)),
-  nodup_by (rel false) (map fst kvs) = true -> nodup_by (rel false) (map fst kvs') = true ->
-  Forall (fun x => vclass x = Some c) (map fst kvs) -> Forall (fun x => vclass x = Some c') (map fst kvs') ->
-  length kvs = length kvs' ->
+Lemma dict_h2 : forall (Rv : pyval -> pyval -> Prop) (kvs kvs' : list (pyval * pyval)),
+  keys_hw kvs -> keys_hw kvs' -> nodup_by (rel false) (map fst kvs) = true -> length kvs = length kvs' ->
   (forall kv, In kv kvs -> exists kv', In kv' kvs' /\ rel true (fst kv) (fst kv') = true /\ Rv (snd kv) (snd kv')) ->
   (forall kv', In kv' kvs' -> exists kv, In kv kvs /\ rel true (fst kv) (fst kv') = true /\ Rv (snd kv) (snd kv')).
 Proof.
-  intros c c' Rv kvs kvs' Hnd Hnd' Hc Hc' Hlen H1 kv' Hkv'.
-  assert (Hndk : NoDup (map skey (map fst kvs))) by (eapply nodup_keys; eauto).
-  assert (Hndk' : NoDup (map skey (map fst kvs'))) by (eapply nodup_keys; eauto).
-  rewrite Forall_forall in Hc, Hc'.
-  assert (Hcl : forall kv, In kv kvs -> vclass (fst kv) = Some c) by (intros; apply Hc; apply in_map; auto).
-  assert (Hcl' : forall kv, In kv kvs' -> vclass (fst kv) = Some c') by (intros; apply Hc'; apply in_map; auto).
-  set (f := fun kv : pyval * pyval => skey (fst kv)).
-  assert (Hm : forall l, map skey (map fst l) = map f l) by (intros; rewrite map_map; reflexivity).
-  rewrite Hm in Hndk, Hndk'.
-  assert (Hincl : incl (map f kvs) (map f kvs')).
-  { intros z Hz. apply in_map_iff in Hz. destruct Hz as (kv & <- & Hkv).
-    destruct (H1 kv Hkv) as (kv2 & Hkv2 & Hkk & _). apply in_map_iff. exists kv2. split; auto.
-    unfold f. symmetry. eapply (class_eq_key true); eauto. }
-  assert (Hincl' : incl (map f kvs') (map f kvs)).
-  { apply NoDup_length_incl; auto. rewrite !map_length. lia. }
-  assert (Hin : In (f kv') (map f kvs)) by (apply Hincl'; apply in_map; auto).
+  intros Rv kvs kvs' Hk Hk' Hnd Hlen H1 kv' Hkv'.
+  destruct (keys_perm kvs kvs' Rv Hk Hk' Hnd Hlen H1) as [Hndk Hperm].
+  assert (Hndk' : NoDup (map ckey (map fst kvs'))) by (eapply Permutation_NoDup; eauto).
+  set (f := fun kv : pyval * pyval => ckey (fst kv)).
+  assert (Hm : forall l, map ckey (map fst l) = map f l) by (intros; rewrite map_map; reflexivity).
+  rewrite !Hm in *.
+  assert (Hin : In (f kv') (map f kvs)).
+  { apply (Permutation_in _ (Permutation_sym Hperm)). apply in_map. auto. }
   apply in_map_iff in Hin. destruct Hin as (kv & Hf & Hkv).
   destruct (H1 kv Hkv) as (kv2 & Hkv2 & Hkk & Hvv).
   assert (E : kv2 = kv').
-  { apply (NoDup_map_inj f kvs'); auto. rewrite <- Hf. unfold f. symmetry. eapply (class_eq_key true); eauto. }
+  { apply (NoDup_map_inj f kvs'); auto. rewrite <- Hf. unfold f.
+    destruct (Hk kv Hkv) as [W H], (Hk' kv2 Hkv2) as [W2 H2].
+    symmetry. apply ckey_rel_iff; auto. rewrite (hashable_rel_same _ W H _ W2 H2). exact Hkk. }
   subst kv2. eauto.
 Qed.
 
+Lemma items_canon : forall fp (Rv : pyval -> pyval -> Prop) kvs kvs' its its',
+  keys_hw kvs -> keys_hw kvs' -> nodup_by (rel false) (map fst kvs) = true -> length kvs = length kvs' ->
+  (forall kv, In kv kvs -> exists kv', In kv' kvs' /\ rel true (fst kv) (fst kv') = true /\ Rv (snd kv) (snd kv')) ->
+  py_sort item_lt (mk_items fp kvs) = Ok its -> py_sort item_lt (mk_items fp kvs') = Ok its' ->
+  Forall2 (itemR Rv) its its'.
+Proof.
+  intros fp Rv kvs kvs' its its' Hk Hk' Hnd Hlen H1 Hs Hs'.
+  assert (H2 := dict_h2 Rv kvs kvs' Hk Hk' Hnd Hlen H1).
+  destruct (keys_perm kvs kvs' Rv Hk Hk' Hnd Hlen H1) as [Hndk Hperm].
+  assert (Hndk' : NoDup (map ckey (map fst kvs'))) by (eapply Permutation_NoDup; eauto).
+  assert (Hkk : forall l, map ikey (mk_items fp l) = map ckey (map fst l))
+    by (intros; unfold mk_items; rewrite !map_map; reflexivity).
+  destruct (sort_items (mk_items fp kvs)) as (its0 & Hs0 & Hp & Hso); [rewrite Hkk; auto|].
+  destruct (sort_items (mk_items fp kvs')) as (its0' & Hs0' & Hp' & Hso'); [rewrite Hkk; auto|].
+  rewrite Hs0 in Hs. inversion Hs; subst its0. rewrite Hs0' in Hs'. inversion Hs'; subst its0'.
+  assert (Hrf : forall kv kv', In kv kvs -> In kv' kvs' -> rel true (fst kv) (fst kv') = true ->
+                               rel false (fst kv) (fst kv') = true).
+  { intros kv kv' Hkv Hkv' Hr. destruct (Hk kv Hkv) as [W H], (Hk' kv' Hkv') as [W' H'].
+    rewrite (hashable_rel_same _ W H _ W' H'). exact Hr. }
+  apply (sorted_unique cklt ikey ikey (itemR Rv) ck_irrefl ck_trans); auto.
+  - intros a b ((Wa & Ha) & (Wb & Hb) & Hab & _). unfold ikey. apply ckey_rel_iff; auto.
+  - intros a Ha. apply (Permutation_in _ (Permutation_sym Hp)) in Ha. apply in_mk_items in Ha.
+    destruct Ha as (kv & Hkv & ->). destruct (H1 kv Hkv) as (kv' & Hkv' & Hr & Hvv).
+    exists (fst kv', snd kv', to_hashable fp (snd kv')). split.
+    + apply (Permutation_in _ Hp'). unfold mk_items. apply in_map_iff. exists kv'. auto.
+    + unfold itemR. simpl. repeat split; auto; try apply (Hk kv Hkv); try apply (Hk' kv' Hkv').
+  - intros b Hb. apply (Permutation_in _ (Permutation_sym Hp')) in Hb. apply in_mk_items in Hb.
+    destruct Hb as (kv' & Hkv' & ->). destruct (H2 kv' Hkv') as (kv & Hkv & Hr & Hvv).
+    exists (fst kv, snd kv, to_hashable fp (snd kv)). split.
+    + apply (Permutation_in _ Hp). unfold mk_items. apply in_map_iff. exists kv. auto.
+    + unfold itemR. simpl. repeat split; auto; try apply (Hk kv Hkv); try apply (Hk' kv' Hkv').
+Qed.
+
 (* ---------- the guard of the partial theorems and its inheritance by sub-values ---------- *)
-Definition g (v : pyval) : bool := wf v && homogeneous_sortable v && no_pandas v.
-Ltac gsplit H Hwf Hhs Hnp :=
-  unfold g in H; apply andb_true_iff in H; destruct H as [H Hnp]; apply andb_true_iff in H; destruct H as [Hwf Hhs].
+Definition g (v : pyval) : bool := wf v && no_pandas v.
+Ltac gsplit H Hwf Hnp := unfold g in H; apply andb_true_iff in H; destruct H as [Hwf Hnp].
 
 Lemma fn_seq : forall q sk l, forall_nodes q (PSeq sk l) = q (PSeq sk l) && forallb (forall_nodes q) l.
 Proof. reflexivity. Qed.
@@ -595,15 +566,15 @@ Lemma fn_map : forall q mk kvs, forall_nodes q (PMap mk kvs) =
   q (PMap mk kvs) && forallb (fun kv => forall_nodes q (fst kv) && forall_nodes q (snd kv)) kvs.
 Proof. reflexivity. Qed.
 
-Lemma g_intro : forall v, wf v = true -> homogeneous_sortable v = true -> no_pandas v = true -> g v = true.
-Proof. intros v H1 H2 H3. unfold g. rewrite H1, H2, H3. reflexivity. Qed.
+Lemma g_intro : forall v, wf v = true -> no_pandas v = true -> g v = true.
+Proof. intros v H1 H3. unfold g. rewrite H1, H3. reflexivity. Qed.
 
 Lemma g_seq_children : forall sk l, g (PSeq sk l) = true -> (forall d sh, sk <> KNd true d sh) ->
   Forall (fun x => g x = true) l.
 Proof.
-  intros sk l H Hsk. gsplit H Hwf Hhs Hnp.
-  unfold homogeneous_sortable in Hhs. unfold no_pandas in Hnp.
-  rewrite fn_seq in Hhs, Hnp. bsplit.
+  intros sk l H Hsk. gsplit H Hwf Hnp.
+  unfold no_pandas in Hnp.
+  rewrite fn_seq in Hnp. bsplit.
   assert (Hw : forallb wf l = true).
   { simpl in Hwf. bsplit. destruct sk; auto. destruct masked; auto. exfalso. eapply Hsk; eauto. }
   apply Forall_forall. intros x Hx.
@@ -613,9 +584,9 @@ Qed.
 
 Lemma g_map_values : forall mk kvs, g (PMap mk kvs) = true -> Forall (fun kv => g (snd kv) = true) kvs.
 Proof.
-  intros mk kvs H. gsplit H Hwf Hhs Hnp.
-  unfold homogeneous_sortable in Hhs. unfold no_pandas in Hnp.
-  rewrite fn_map in Hhs, Hnp. simpl in Hwf. bsplit.
+  intros mk kvs H. gsplit H Hwf Hnp.
+  unfold no_pandas in Hnp.
+  rewrite fn_map in Hnp. simpl in Hwf. bsplit.
   apply Forall_forall. intros x Hx.
   repeat match goal with H : forallb _ kvs = true |- _ => rewrite forallb_forall in H; specialize (H x Hx) end.
   bsplit. apply g_intro; auto.
@@ -704,14 +675,14 @@ Proof.
     simpl. rewrite (Hx y) by auto. simpl. apply IH; auto.
 Qed.
 
-Lemma mapping_rel : forall fp c c' (its its' : list item) out out',
-  Forall2 (itemR c c' (keq fp)) its its' ->
+Lemma mapping_rel : forall fp (its its' : list item) out out',
+  Forall2 (itemR (keq fp)) its its' ->
   (forall it, In it its -> snd it = to_hashable fp (snd (fst it))) ->
   (forall it, In it its' -> snd it = to_hashable fp (snd (fst it))) ->
   Forall2 item_out its out -> Forall2 item_out its' out' ->
   rel_list false out out' = true.
 Proof.
-  intros fp c c' its its' out out' HR. revert out out'.
+  intros fp its its' out out' HR. revert out out'.
   induction HR as [|it it' its its' (Hc & Hc' & Hk & Hv) HR IH]; intros out out' Hs Hs' HF HF'.
   - inversion HF; inversion HF'; subst. reflexivity.
   - inversion HF as [|? y ? outx (hv & Hhv & ->) HFx]; subst.
@@ -735,46 +706,42 @@ Proof. destruct f; simpl; unfold atom_eq; simpl; auto. apply str_eqb_refl. Qed.
 Lemma maxlen_rel_refl : forall m, rel false (maxlen_val m) (maxlen_val m) = true.
 Proof. destruct m; simpl; unfold atom_eq; simpl; auto. apply Z.eqb_refl. Qed.
 
+Lemma wf_keys_hw : forall mk kvs, wf (PMap mk kvs) = true ->
+  keys_hw kvs /\ nodup_by (rel false) (map fst kvs) = true.
+Proof.
+  intros mk kvs H. simpl in H. apply andb_true_iff in H. destruct H as [H _].
+  apply andb_true_iff in H. destruct H as [H Hnd]. apply andb_true_iff in H. destruct H as [Hw Hh].
+  split; auto. intros kv Hkv. rewrite forallb_forall in Hw, Hh. specialize (Hw kv Hkv). specialize (Hh kv Hkv).
+  apply andb_true_iff in Hw. destruct Hw. split; auto.
+Qed.
+Lemma strip_keys_hw : forall kvs, keys_hw kvs -> keys_hw (strip kvs).
+Proof. intros kvs H kv Hkv. apply H. apply strip_incl. exact Hkv. Qed.
+
 (* sorted mappings (dict, defaultdict): the converted item tuples agree *)
 Lemma map_canon : forall fp kvs kvs' d d',
   wf (PDict kvs) = true -> wf (PDict kvs') = true ->
-  homog (map fst kvs) = true -> homog (map fst kvs') = true ->
   rel_dict true kvs kvs' = true ->
   (forall kv kv', In kv kvs -> In kv' kvs' -> rel true (snd kv) (snd kv') = true -> keq fp (snd kv) (snd kv')) ->
   hashable_mapping true (mk_items fp kvs) = Ok d -> hashable_mapping true (mk_items fp kvs') = Ok d' ->
   rel false d d' = true.
 Proof.
-  intros fp kvs kvs' d d' Hwf Hwf' Hg Hg' Hrel HIH Hd Hd'.
+  intros fp kvs kvs' d d' Hwf Hwf' Hrel HIH Hd Hd'.
   unfold rel_dict in Hrel. apply andb_true_iff in Hrel. destruct Hrel as [Hlen Hall]. apply Nat.eqb_eq in Hlen.
-  assert (HIH' : forall kv kv', In kv kvs -> In kv' kvs' -> rel true (snd kv) (snd kv') = true ->
-                               keq fp (snd kv) (snd kv')) by exact HIH.
-  clear HIH.
-  assert (Hnd : nodup_by (rel false) (map fst kvs) = true) by (simpl in Hwf; bsplit; assumption).
-  assert (Hnd' : nodup_by (rel false) (map fst kvs') = true) by (simpl in Hwf'; bsplit; assumption).
-  clear Hwf Hwf'.
-  destruct (homog_class _ Hg) as [c Hc]. destruct (homog_class _ Hg') as [c' Hc'].
+  destruct (wf_keys_hw _ _ Hwf) as [Hk Hnd]. destruct (wf_keys_hw _ _ Hwf') as [Hk' Hnd'].
   assert (Hone : forall kv, In kv kvs -> exists kv', In kv' kvs' /\ rel true (fst kv) (fst kv') = true
                                                   /\ keq fp (snd kv) (snd kv')).
   { intros kv Hkv. rewrite forallb_forall in Hall. specialize (Hall kv Hkv). apply existsb_exists in Hall.
     destruct Hall as (kv' & Hkv' & Hr). apply andb_true_iff in Hr. destruct Hr as [Hrk Hrv].
     exists kv'. split; auto. }
-  assert (Htwo := dict_h2 c c' (keq fp) kvs kvs' Hnd Hnd' Hc Hc' Hlen Hone).
   apply mapping_out in Hd. destruct Hd as (its & out & Hs & -> & HF).
   apply mapping_out in Hd'. destruct Hd' as (its' & out' & Hs' & -> & HF').
   change (py_sort item_lt (mk_items fp kvs) = Ok its) in Hs.
   change (py_sort item_lt (mk_items fp kvs') = Ok its') in Hs'.
-  assert (HR : Forall2 (itemR c c' (keq fp)) its its')
-    by (exact (items_canon fp c c' (keq fp) kvs kvs' its its' Hnd Hnd' Hc Hc' Hone Htwo Hs Hs')).
+  assert (HR : Forall2 (itemR (keq fp)) its its')
+    by (exact (items_canon fp (keq fp) kvs kvs' its its' Hk Hk' Hnd Hlen Hone Hs Hs')).
   rewrite rel_tuple. eapply mapping_rel; eauto.
   - apply items_snd with (kvs := kvs). eapply py_sort_perm; eauto.
   - apply items_snd with (kvs := kvs'). eapply py_sort_perm; eauto.
-Qed.
-
-Lemma hs_map_keys : forall mk kvs, homogeneous_sortable (PMap mk kvs) = true -> mk <> KODict ->
-  homog (map fst kvs) = true.
-Proof.
-  intros mk kvs H Hmk. unfold homogeneous_sortable in H. rewrite fn_map in H. bsplit.
-  destruct mk; auto; congruence.
 Qed.
 
 Lemma odict_rel : forall fp kvs kvs' out out',
@@ -798,13 +765,13 @@ Proof.
     apply IH; auto; intros; [apply Hw|apply Hw'|eapply HIH]; simpl; eauto.
 Qed.
 
-Lemma counter_rel : forall c c' (its its' : list item),
-  Forall2 (itemR c c' (fun v v' => rel true v v' = true)) its its' ->
+Lemma counter_rel : forall (its its' : list item),
+  Forall2 (itemR (fun v v' => rel true v v' = true)) its its' ->
   (forall it, In it its -> atomic (snd (fst it)) = true) ->
   rel_list false (map (fun it : item => pair_t (fst (fst it)) (snd (fst it))) its)
                  (map (fun it : item => pair_t (fst (fst it)) (snd (fst it))) its') = true.
 Proof.
-  intros c c' its its' HR. induction HR as [|it it' its its' (Hc & Hc' & Hk & Hv) HR IH]; intros Ha; simpl; auto.
+  intros its its' HR. induction HR as [|it it' its its' (Hc & Hc' & Hk & Hv) HR IH]; intros Ha; simpl; auto.
   rewrite Hk. simpl. rewrite (atomic_rel (snd (fst it))) by (apply Ha; simpl; auto). rewrite Hv. simpl.
   apply IH. intros; apply Ha; simpl; auto.
 Qed.
@@ -908,13 +875,9 @@ Proof.
     case_iter Hk d Hd.
     case_iter Hk' d' Hd'.
     cbn [bind] in Hk, Hk'. inversion Hk; inversion Hk'; subst. rewrite conv_rel, str_eqb_refl. cbn [andb].
-    simpl in Hwf, Hwf'. bsplit.
-    assert (Hhs : homog l = true).
-    { unfold g in Hg. bsplit. match goal with H : homogeneous_sortable _ = true |- _ =>
-        unfold homogeneous_sortable in H; rewrite fn_set in H; apply andb_true_iff in H; destruct H as [H _]; exact H end. }
-    assert (Hhs' : homog l' = true).
-    { unfold g in Hg'. bsplit. match goal with H : homogeneous_sortable _ = true |- _ =>
-        unfold homogeneous_sortable in H; rewrite fn_set in H; apply andb_true_iff in H; destruct H as [H _]; exact H end. }
+    simpl in Hwf, Hwf'.
+    apply andb_true_iff in Hwf. destruct Hwf as [Hwf Hnd]. apply andb_true_iff in Hwf. destruct Hwf as [Hwl Hhl].
+    apply andb_true_iff in Hwf'. destruct Hwf' as [Hwf' Hnd']. apply andb_true_iff in Hwf'. destruct Hwf' as [Hwl' Hhl'].
     eapply (set_canon fp l l'); eauto.
     intros a Ha. rewrite forallb_forall in Hall. specialize (Hall a Ha). apply existsb_exists in Hall. exact Hall.
   - (* mappings *)
@@ -929,8 +892,6 @@ Proof.
     { intros kv kv' Hkv Hkv' Hr. destruct (IH kv Hkv) as [_ IHv]. apply IHv; auto. }
     assert (Hwf : wf (PMap mk kvs) = true) by (unfold g in Hg; bsplit; assumption).
     assert (Hwf' : wf (PMap mk kvs') = true) by (unfold g in Hg'; bsplit; assumption).
-    assert (Hhs : homogeneous_sortable (PMap mk kvs) = true) by (unfold g in Hg; bsplit; assumption).
-    assert (Hhs' : homogeneous_sortable (PMap mk kvs') = true) by (unfold g in Hg'; bsplit; assumption).
     assert (HwD : wf (PDict kvs) = true).
     { simpl in Hwf |- *. apply andb_true_iff in Hwf. destruct Hwf as [Hwf _]. rewrite Hwf. reflexivity. }
     assert (HwD' : wf (PDict kvs') = true).
@@ -939,7 +900,7 @@ Proof.
     + destruct (hashable_mapping true (mk_items fp kvs)) as [d|e] eqn:Hd; [|discriminate].
       destruct (hashable_mapping true (mk_items fp kvs')) as [d'|e] eqn:Hd'; [|discriminate].
       cbn [bind] in Hk, Hk'. inversion Hk; inversion Hk'; subst. rewrite conv_rel, str_eqb_refl. cbn [andb].
-      eapply (map_canon fp kvs kvs'); eauto; eapply hs_map_keys; eauto; discriminate.
+      eapply (map_canon fp kvs kvs'); eauto.
     + destruct (hashable_mapping false (mk_items fp kvs)) as [d|e] eqn:Hd; [|discriminate].
       destruct (hashable_mapping false (mk_items fp kvs')) as [d'|e] eqn:Hd'; [|discriminate].
       cbn [bind] in Hk, Hk'. inversion Hk; inversion Hk'; subst. rewrite conv_rel, str_eqb_refl. cbn [andb].
@@ -959,20 +920,11 @@ Proof.
       destruct (hashable_mapping true (mk_items fp kvs')) as [d'|e] eqn:Hd'; [|discriminate].
       cbn [bind] in Hk, Hk'. inversion Hk; inversion Hk'; subst. rewrite conv_rel, str_eqb_refl. cbn [andb].
       rewrite rel_tuple. cbn [rel_list]. rewrite factory_rel_refl. cbn [andb]. rewrite andb_true_r.
-      eapply (map_canon fp kvs kvs'); eauto; eapply hs_map_keys; eauto; discriminate.
+      eapply (map_canon fp kvs kvs'); eauto.
     + destruct (py_sort item_lt (mk_items fp (strip kvs))) as [its|e] eqn:Hs; [|discriminate].
       destruct (py_sort item_lt (mk_items fp (strip kvs'))) as [its'|e] eqn:Hs'; [|discriminate].
       cbn [bind] in Hk, Hk'. inversion Hk; inversion Hk'; subst. rewrite conv_rel, str_eqb_refl. cbn [andb].
       rewrite rel_tuple.
-      assert (Hhk : homog (map fst kvs) = true) by (eapply hs_map_keys; eauto; discriminate).
-      assert (Hhk' : homog (map fst kvs') = true) by (eapply hs_map_keys; eauto; discriminate).
-      destruct (homog_class _ Hhk) as [c Hc]. destruct (homog_class _ Hhk') as [c' Hc'].
-      assert (Hcs : Forall (fun x => vclass x = Some c) (map fst (strip kvs))).
-      { rewrite Forall_forall in *. intros x Hx. apply in_map_iff in Hx. destruct Hx as (kv & <- & Hin).
-        apply Hc. apply in_map. apply strip_incl. exact Hin. }
-      assert (Hcs' : Forall (fun x => vclass x = Some c') (map fst (strip kvs'))).
-      { rewrite Forall_forall in *. intros x Hx. apply in_map_iff in Hx. destruct Hx as (kv & <- & Hin).
-        apply Hc'. apply in_map. apply strip_incl. exact Hin. }
       rewrite rel_counter_strip in Hrel. unfold rel_dict in Hrel.
       apply andb_true_iff in Hrel. destruct Hrel as [Hlen Hall]. apply Nat.eqb_eq in Hlen.
       rewrite forallb_forall in Hall.
@@ -981,13 +933,10 @@ Proof.
       { intros kv Hkv. specialize (Hall kv Hkv).
         apply existsb_exists in Hall. destruct Hall as (kv' & Hkv' & Hr). apply andb_true_iff in Hr. destruct Hr.
         eauto. }
-      simpl in Hwf, Hwf'.
-      apply andb_true_iff in Hwf. destruct Hwf as [Hwf Hci]. apply andb_true_iff in Hwf. destruct Hwf as [_ Hnd].
-      apply andb_true_iff in Hwf'. destruct Hwf' as [Hwf' Hci']. apply andb_true_iff in Hwf'. destruct Hwf' as [_ Hnd'].
-      assert (Htwo := dict_h2 c c' (fun v v' => rel true v v' = true) (strip kvs) (strip kvs')
-                        (strip_nodup _ Hnd) (strip_nodup _ Hnd') Hcs Hcs' Hlen Hone).
-      assert (HR := items_canon fp c c' (fun v v' => rel true v v' = true) (strip kvs) (strip kvs') its its'
-                      (strip_nodup _ Hnd) (strip_nodup _ Hnd') Hcs Hcs' Hone Htwo Hs Hs').
+      destruct (wf_keys_hw _ _ Hwf) as [Hkh Hnd]. destruct (wf_keys_hw _ _ Hwf') as [Hkh' Hnd'].
+      simpl in Hwf. apply andb_true_iff in Hwf. destruct Hwf as [_ Hci].
+      assert (HR := items_canon fp (fun v v' => rel true v v' = true) (strip kvs) (strip kvs') its its'
+                      (strip_keys_hw _ Hkh) (strip_keys_hw _ Hkh') (strip_nodup _ Hnd) Hlen Hone Hs Hs').
       eapply counter_rel; eauto.
       intros it Hit. apply py_sort_perm in Hs. apply (Permutation_in _ (Permutation_sym Hs)) in Hit.
       apply mk_items_strip_incl in Hit.
@@ -998,12 +947,11 @@ Proof.
 Qed.
 
 Theorem eq_implies_key_eq : forall fp v w k k',
-  wf v = true -> wf w = true -> homogeneous_sortable v = true -> homogeneous_sortable w = true ->
-  no_pandas v = true -> no_pandas w = true ->
+  wf v = true -> wf w = true -> no_pandas v = true -> no_pandas w = true ->
   py_same v w = true -> to_hashable fp v = Ok k -> to_hashable fp w = Ok k' -> py_eq k k' = true.
 Proof.
-  intros fp v w k k' H1 H2 H3 H4 H5 H6 Hs Hk Hk'.
-  exact (eq_implies_key_eq_g fp v w (g_intro v H1 H3 H5) (g_intro w H2 H4 H6) Hs k k' Hk Hk').
+  intros fp v w k k' H1 H2 H5 H6 Hs Hk Hk'.
+  exact (eq_implies_key_eq_g fp v w (g_intro v H1 H5) (g_intro w H2 H6) Hs k k' Hk Hk').
 Qed.
 
 (* ================= totality ================= *)
@@ -1018,34 +966,16 @@ Qed.
 Lemma conv_fa_seq : forall p sk l, forall_atoms p (PSeq sk l) = forallb (forall_atoms p) l.
 Proof. reflexivity. Qed.
 
-Definition g0 (v : pyval) : bool := wf v && homogeneous_sortable v && no_pandas v.
-Lemma g0_intro : forall v, wf v = true -> homogeneous_sortable v = true -> no_pandas v = true -> g0 v = true.
-Proof. intros v H1 H2 H3. unfold g0. rewrite H1, H2, H3. reflexivity. Qed.
+Definition g0 (v : pyval) : bool := wf v && no_pandas v.
+Lemma g0_intro : forall v, wf v = true -> no_pandas v = true -> g0 v = true.
+Proof. intros v H1 H3. unfold g0. rewrite H1, H3. reflexivity. Qed.
 
 Lemma g0_seq_children : forall sk l, g0 (PSeq sk l) = true -> (forall d sh, sk <> KNd true d sh) ->
   Forall (fun x => g0 x = true) l.
-Proof.
-  intros sk l H Hsk. unfold g0 in H. apply andb_true_iff in H. destruct H as [H Hnp].
-  apply andb_true_iff in H. destruct H as [Hwf Hhs].
-  unfold homogeneous_sortable in Hhs. unfold no_pandas in Hnp.
-  rewrite fn_seq in Hhs, Hnp. bsplit.
-  assert (Hw : forallb wf l = true).
-  { simpl in Hwf. bsplit. destruct sk; auto. destruct masked; auto. exfalso. eapply Hsk; eauto. }
-  apply Forall_forall. intros x Hx.
-  repeat match goal with H : forallb _ l = true |- _ => rewrite forallb_forall in H; specialize (H x Hx) end.
-  apply g0_intro; auto.
-Qed.
+Proof. exact g_seq_children. Qed.
 
 Lemma g0_map_values : forall mk kvs, g0 (PMap mk kvs) = true -> Forall (fun kv => g0 (snd kv) = true) kvs.
-Proof.
-  intros mk kvs H. unfold g0 in H. apply andb_true_iff in H. destruct H as [H Hnp].
-  apply andb_true_iff in H. destruct H as [Hwf Hhs].
-  unfold homogeneous_sortable in Hhs. unfold no_pandas in Hnp.
-  rewrite fn_map in Hhs, Hnp. simpl in Hwf. bsplit.
-  apply Forall_forall. intros x Hx.
-  repeat match goal with H : forallb _ kvs = true |- _ => rewrite forallb_forall in H; specialize (H x Hx) end.
-  bsplit. apply g0_intro; auto.
-Qed.
+Proof. exact g_map_values. Qed.
 
 Theorem total_g : forall fp v, g0 v = true -> convertible fp v = true -> exists k, to_hashable fp v = Ok k.
 Proof.
@@ -1075,17 +1005,11 @@ Proof.
     rewrite th_set by exact Hh. destruct sk; [|simpl in Hh; discriminate].
     unfold set_body, hashable_iterable.
     assert (Hwf : wf (PSet l) = true) by (unfold g0 in Hg; bsplit; assumption).
-    assert (Hhs : homog l = true).
-    { unfold g0 in Hg. bsplit. match goal with H : homogeneous_sortable _ = true |- _ =>
-        unfold homogeneous_sortable in H; rewrite fn_set in H; apply andb_true_iff in H; destruct H as [H _]; exact H end. }
-    simpl in Hwf. apply andb_true_iff in Hwf. destruct Hwf as [Hwf Hnd]. apply andb_true_iff in Hwf. destruct Hwf as [_ Hhl].
-    destruct (homog_class l Hhs) as [c Hcl].
+    simpl in Hwf. apply andb_true_iff in Hwf. destruct Hwf as [Hwf Hnd]. apply andb_true_iff in Hwf. destruct Hwf as [Hwl Hhl].
     set (elems := map (fun x => (x, to_hashable fp x)) l).
-    assert (HS : Forall (fun e : elem => vclass (fst e) = Some c) elems).
-    { apply Forall_forall. intros e He. apply in_map_iff in He. destruct He as (x & <- & Hx). simpl.
-      rewrite Forall_forall in Hcl. auto. }
-    destruct (sort_elems c elems HS) as (es & Hs & Hp & _).
-    { unfold elems. rewrite map_map. simpl. eapply nodup_keys; eauto. }
+    destruct (sort_elems elems) as (es & Hs & Hp & _).
+    { unfold elems. rewrite map_map. simpl. apply nodup_ckeys; auto.
+      intros x Hx. rewrite forallb_forall in Hwl, Hhl. split; auto. }
     rewrite Hs. cbn [bind].
     destruct (mapM_exists (fun e : elem => snd e) es) as [out Hout].
     { intros e He. apply (Permutation_in _ (Permutation_sym Hp)) in He. apply in_map_iff in He.
@@ -1098,24 +1022,19 @@ Proof.
       unfold convertible in Hc |- *. simpl in Hc. rewrite forallb_forall in Hc. specialize (Hc kv Hkv).
       apply andb_true_iff in Hc. destruct Hc. assumption. }
     assert (Hwf : wf (PMap mk kvs) = true) by (unfold g0 in Hg; bsplit; assumption).
-    assert (Hhs : homogeneous_sortable (PMap mk kvs) = true) by (unfold g0 in Hg; bsplit; assumption).
     assert (Hnd : nodup_by (rel false) (map fst kvs) = true).
     { simpl in Hwf. apply andb_true_iff in Hwf. destruct Hwf as [Hwf _]. apply andb_true_iff in Hwf.
       destruct Hwf as [_ Hnd]. exact Hnd. }
-    assert (Hsort : mk <> KODict -> forall kz, (forall kv, In kv kz -> In kv kvs) ->
+    destruct (wf_keys_hw _ _ Hwf) as [Hkh _].
+    assert (Hsort : forall kz, (forall kv, In kv kz -> In kv kvs) ->
               nodup_by (rel false) (map fst kz) = true ->
               exists its, py_sort item_lt (mk_items fp kz) = Ok its /\ Permutation (mk_items fp kz) its).
-    { intros Hmk kz Hkz Hndz. destruct (homog_class _ (hs_map_keys _ _ Hhs Hmk)) as [c Hcl].
-      rewrite Forall_forall in Hcl.
-      assert (HS : Forall (fun it : item => vclass (fst (fst it)) = Some c) (mk_items fp kz)).
-      { apply Forall_forall. intros it Hit. apply in_mk_items in Hit. destruct Hit as (kv & Hkv & ->). simpl.
-        apply Hcl. apply in_map. auto. }
-      destruct (sort_items c _ HS) as (its & Hs & Hp & _).
+    { intros kz Hkz Hndz.
+      destruct (sort_items (mk_items fp kz)) as (its & Hs & Hp & _).
       { unfold mk_items. rewrite map_map. simpl.
         replace (map (fun x : pyval * pyval => ikey (fst x, snd x, to_hashable fp (snd x))) kz)
-          with (map skey (map fst kz)) by (rewrite map_map; reflexivity).
-        eapply nodup_keys; eauto. apply Forall_forall. intros x Hx. apply in_map_iff in Hx.
-        destruct Hx as (kv & <- & Hin). apply Hcl. apply in_map. auto. }
+          with (map ckey (map fst kz)) by (rewrite map_map; reflexivity).
+        apply nodup_ckeys; auto. intros x Hx. apply in_map_iff in Hx. destruct Hx as (kv & <- & Hin). auto. }
       eauto. }
     assert (Hout : forall its, Permutation (mk_items fp kvs) its ->
               exists out, mapM (fun it : item => do hv <- snd it; Ok (pair_t (fst (fst it)) hv)) its = Ok out).
@@ -1123,12 +1042,12 @@ Proof.
       apply in_mk_items in Hit. destruct Hit as (kv & Hkv & ->). simpl.
       destruct (Hvals kv Hkv) as [hv Hhv]. rewrite Hhv. cbn [bind]. eauto. }
     unfold map_body, hashable_mapping. destruct mk.
-    + destruct (Hsort ltac:(discriminate) kvs (fun _ H => H) Hnd) as (its & Hs & Hp). rewrite Hs. cbn [bind].
+    + destruct (Hsort kvs (fun _ H => H) Hnd) as (its & Hs & Hp). rewrite Hs. cbn [bind].
       destruct (Hout its Hp) as [out Ho]. rewrite Ho. cbn [bind]. eauto.
     + cbn [bind]. destruct (Hout _ (Permutation_refl _)) as [out Ho]. rewrite Ho. cbn [bind]. eauto.
-    + destruct (Hsort ltac:(discriminate) kvs (fun _ H => H) Hnd) as (its & Hs & Hp). rewrite Hs. cbn [bind].
+    + destruct (Hsort kvs (fun _ H => H) Hnd) as (its & Hs & Hp). rewrite Hs. cbn [bind].
       destruct (Hout its Hp) as [out Ho]. rewrite Ho. cbn [bind]. eauto.
-    + destruct (Hsort ltac:(discriminate) (strip kvs) (strip_incl kvs) (strip_nodup _ Hnd)) as (its & Hs & Hp).
+    + destruct (Hsort (strip kvs) (strip_incl kvs) (strip_nodup _ Hnd)) as (its & Hs & Hp).
       rewrite Hs. cbn [bind]. eauto.
   - unfold g0 in Hg. bsplit. match goal with H : no_pandas _ = true |- _ => unfold no_pandas in H; simpl in H; discriminate end.
   - unfold g0 in Hg. bsplit. match goal with H : no_pandas _ = true |- _ => unfold no_pandas in H; simpl in H; discriminate end.
@@ -1136,27 +1055,11 @@ Qed.
 
 
 Theorem total_on_supported : forall fp v,
-  wf v = true -> homogeneous_sortable v = true -> no_pandas v = true -> convertible fp v = true ->
+  wf v = true -> no_pandas v = true -> convertible fp v = true ->
   exists k, to_hashable fp v = Ok k.
-Proof. intros fp v H1 H2 H3 H4. apply total_g; auto. apply g0_intro; auto. Qed.
+Proof. intros fp v H1 H3 H4. apply total_g; auto. apply g0_intro; auto. Qed.
 
 (* ================= refutations of the unguarded statements (witnesses replayed on the real code) ================= *)
-(* {1, 'a'}: sorted() raises TypeError - no key *)
-Definition w_mixed_set : pyval := PSet [PInt 1; PStr (s "a")].
-Lemma total_refuted :
-  exists v, supported v = true /\ convertible true v = true /\ to_hashable true v = Err TypeError.
-Proof. exists w_mixed_set. repeat split; vm_compute; reflexivity. Qed.
-
-(* {frozenset({1}): 'a', frozenset({2}): 'b'} built in the two insertion orders: equal dicts, unequal keys *)
-Definition w_fs_dict1 : pyval :=
-  PDict [(PFrozenset [PInt 1], PStr (s "a")); (PFrozenset [PInt 2], PStr (s "b"))].
-Definition w_fs_dict2 : pyval :=
-  PDict [(PFrozenset [PInt 2], PStr (s "b")); (PFrozenset [PInt 1], PStr (s "a"))].
-Lemma eq_implies_key_eq_refuted_partial_order :
-  exists v w k k', supported v = true /\ supported w = true /\ py_same v w = true
-                   /\ to_hashable true v = Ok k /\ to_hashable true w = Ok k' /\ py_eq k k' = false.
-Proof. exists w_fs_dict1, w_fs_dict2. do 2 eexists. repeat split; vm_compute; reflexivity. Qed.
-
 (* pd.Series([1, 2], index=['a', 'b']) vs pd.Series([2, 1], index=['b', 'a']): different values, EQUAL keys *)
 Definition w_series1 : pyval := PSeries ANone (s "<i8") [AStr (s "a"); AStr (s "b")] [AInt 1; AInt 2].
 Definition w_series2 : pyval := PSeries ANone (s "<i8") [AStr (s "b"); AStr (s "a")] [AInt 2; AInt 1].
